@@ -10,7 +10,8 @@ RULE = ("msprime tree sequences with ploidy=2 contemporary individuals (2-4 indi
         "multiple-merger, integer coordinates), extra singletons added on the individuals' nodes (40% of them exactly on "
         "tree breakpoints), ~40% of the inputs decorated by gen.exotic (extra node flag bits, ALL nodes renumbered, "
         "mutations above roots, mutation-free sites incl. num_sites == num_mutations, arbitrary ancestral states, "
-        "populations), every mutation "
+        "populations), 20% with chromosome-scale integer coordinates (mutation rate scaled down accordingly), "
+        "every mutation "
         "given a unique derived state so that output rows are matched by (site, derived_state) (tskit's sort may "
         "permute rows inside a site, DESIGN.md section 9 K9); x random re-phasings (each singleton moved to the "
         "individual's other node with probability 1/2); x singletons_phased in {True, False}; x one random option "
@@ -62,6 +63,8 @@ def make_ts(rng):
             ts = S.site_mutation_coincidence(rng, ts, nodes=nodes if "permute_nodes" not in _tag else None)
         if ts.num_mutations > 160:
             continue
+        if rng.random() < 0.2:
+            ts = S.stretch_coords(rng, ts)      # chromosome-scale coordinates; callers scale the mutation rate
         return unique_states(ts)
 
 
@@ -330,6 +333,8 @@ def run(ctx, model_ok=True):
     for _ in range(n):
         ts = make_ts(ctx.rng)
         mu = ctx.rng.choice([0.01, 0.05, 0.3])
+        if ts.sequence_length > 1e6:
+            mu = mu * 400.0 / ts.sequence_length      # keep mu * span in the same regime
         rescale = make_opts(ctx.rng)
         rp = {"tables": S.describe(ts), "mu": mu, "rescale": rescale}
         try:
